@@ -46,6 +46,12 @@ def resolve(qualname):
             obj = obj.__func__
         elif isinstance(obj, property):
             obj = obj.fget
+    # a function wrapped by a decorator that keeps __wrapped__ (functools.lru_cache, functools.wraps): observe the function
+    # underneath (a memoising wrapper then simply produces fewer entries of it)
+    hops = 0
+    while not isinstance(obj, types.FunctionType) and hasattr(obj, '__wrapped__') and hops < 5:
+        obj = obj.__wrapped__
+        hops += 1
     if not isinstance(obj, types.FunctionType):
         raise LookupError('%s is not a python function' % qualname)
     return obj
